@@ -137,7 +137,9 @@ func (r *CleanRule) UnmarshalJSON(bs []byte) error {
 }
 
 func (r *CleanRule) MarshalJSON() ([]byte, error) {
-	x := (*Rule)(r)
+	// A copy: the rule can be the cached one, which every event
+	// that finds it shares.
+	x := *(*Rule)(r)
 	x.Action = nil
 	buf, err := json.Marshal(&x)
 	if err != nil {
